@@ -970,6 +970,8 @@ impl Matcher {
 
             tx.commit()?;
             trace!("committed subscription");
+            #[cfg(feature = "verif-hooks")]
+            crate::verif::point("sub.created");
 
             Ok::<_, MatcherError>(())
         })?;
@@ -1206,6 +1208,8 @@ impl Matcher {
         }
 
         info!(sub_id = %self.id, "draining changes channel");
+        #[cfg(feature = "verif-hooks")]
+        crate::verif::point("sub.draining");
         while let Some(candidates) = self.changes_rx.recv().await {
             for (table, pks) in candidates {
                 let buffed = buf.entry(table).or_default();
@@ -1232,6 +1236,8 @@ impl Matcher {
         if let Err(e) = self.set_status("completed") {
             error!(sub_id = %self.id, "could not set status: {e}");
         };
+        #[cfg(feature = "verif-hooks")]
+        crate::verif::point("sub.completed");
 
         info!(sub_id = %self.id, "matcher loop is done");
     }
@@ -1362,6 +1368,8 @@ impl Matcher {
                 )?;
 
                 tx.commit()?;
+                #[cfg(feature = "verif-hooks")]
+                crate::verif::point("sub.initial_committed");
 
                 elapsed
             };
